@@ -201,7 +201,9 @@ SAN_NOTE = ('Decides the histories actually generated. Trusted: AddressSanitizer
 
 SPECS['C04'] = dict(
     title='RingBuffer behaves as a bounded deque',
-    jobs=model_jobs('h_ring', 'C04', (80000, 3000000), vg_cases=4000),
+    jobs=lambda tier, seed: (model_jobs('h_ring', 'C04', (80000, 3000000), vg_cases=4000)(tier, seed)
+                             # capacities beyond 2^31 / 2^32 slots: plain build (under ASan every realloc of such a block is a 4 GiB copy)
+                             + [Job('h_ring', 'mon', pseed(seed, 'C04', 30), frm, cnt, ['huge=1000'], label='huge') for frm, cnt in split(48 if tier == 'quick' else 4000, 2 if tier == 'quick' else 8)]),
     require={'any': {'histories': 5000, 'nontrivialCases': 2000}},
     evidence=ring_evidence('case = seeded history (1-200 operations, up to 4 live buffers, capacity 1-17, both overwrite modes, element types int / 24-byte POD / '
                            'lifetime-tracked class / std::string without resize) run in lock-step with a std::deque model; after every operation size, capacity, '
